@@ -274,6 +274,18 @@ fn main() {
                 }
                 let marker_name = s(item, "marker_name").unwrap_or_else(|| sig.ident.to_string());
                 let contract_only = item.get("contract_only").and_then(|x| x.as_bool()).unwrap_or(false);
+                // R21: a by-value `mut self` receiver (not supported by Verus) becomes `self` + `let mut vx_self = self;`
+                // with every `self` of the body renamed: the same move, spelled with a local
+                if let Some(FnArg::Receiver(r)) = sig.inputs.first_mut() {
+                    if r.reference.is_none() && r.mutability.is_some() {
+                        r.mutability = None;
+                        if !contract_only {
+                            rules::rename_self(&mut block, "vx_self");
+                            block.stmts.insert(0, parse_quote! { let mut vx_self = self; });
+                        }
+                        fired.push("R21-mut-self-receiver".into());
+                    }
+                }
                 if contract_only {
                     // modular use: only the signature is taken; the body is verified in the unit that owns the fn
                     block = parse_quote! { { vx_contract_only!(); unimplemented!() } };
